@@ -133,6 +133,23 @@ def ordering_part():
         record(f"TLC finds a counterexample when {k} is weakened to {v}", not r.ok)
 
 
+def queue_ra_part():
+    c = orderings.extract_queue()
+    mod, cfg = queuedefs.write_ra("st_code", c, 1, ["p1", "p2"], 2, 4, WD)
+    r = run_tlc(mod, cfg, WD, workers=8, timeout=600)
+    record("QueueRA holds under the orderings extracted from queue.rs", r.ok)
+    mod, cfg = queuedefs.write_ra("st_vac", c, 1, ["p1", "p2"], 2, 4, WD, invariants=["NeverSecondLap"])
+    r = run_tlc(mod, cfg, WD, workers=8, timeout=600)
+    record("QueueRA: some behaviour takes a message from a re-used slot (vacuity guard)", not r.ok)
+    for k, v in (("OPLoadStamp", "rlx"), ("OPStoreStamp", "rlx"), ("OCLoadStamp", "rlx"), ("OCStoreStamp", "rlx"),
+                 ("PushPublishesLast", False), ("DropPublishesLast", False)):
+        c2 = dict(c)
+        c2[k] = v
+        mod, cfg = queuedefs.write_ra("st_weak_" + k, c2, 1, ["p1", "p2"], 2, 4, WD)
+        r = run_tlc(mod, cfg, WD, workers=8, timeout=600)
+        record(f"TLC finds a data race on QueueRA when {k} is set to {v}", not r.ok)
+
+
 def pool_part():
     import check_pool
     import pooldefs
@@ -237,6 +254,7 @@ def run():
     queue_part()
     task_part()
     ordering_part()
+    queue_ra_part()
     pool_part()
     chan_part()
     coverage_part()
